@@ -36,7 +36,7 @@ type Event struct {
 	OK  bool           `json:"ok"`
 	N   int            `json:"n"`
 	Lim map[string]any `json:"lim,omitempty"`
-	Fam string         `json:"fam,omitempty"`
+	Fam string         `json:"fam"`
 	Tag string         `json:"tag,omitempty"`
 }
 
